@@ -782,6 +782,80 @@ def _typestate(pm: PoolModel, ctx) -> None:
                                'every element', f'{f.module.rel()}:{c.lineno}',
                                sample='paired with conn_stack.clear(), each '
                                       'conn handed to _disconnect, gathered')
+    _disconnect_only_unregistered(pm, ctx)
+
+
+def _disconnect_only_unregistered(pm: PoolModel, ctx) -> None:
+    """The converse of conns.pop->disconnect: a connection handed to the
+    disconnect has left `conns` (popped on every path before the call, in
+    this function or - for a parameter - in every caller; or the whole
+    table is cleared right after the loop that hands every element over).
+    A connection that is closed while still registered is closed and
+    un-counted again by the next release/discard."""
+    dfn = pm.disconnect_fn
+    n_sites = 0
+
+    def popped(f, g, nid, arg, seen) -> Tuple[bool, str]:
+        name = norm(arg)
+        pops = [n.id for n in g.nodes for c in g.node_calls(n)
+                if isinstance(c.func, ast.Attribute) and c.func.attr == 'pop'
+                and isinstance(c.func.value, ast.Attribute)
+                and c.func.value.attr == 'conns' and c.args
+                and norm(c.args[0]) == name]
+        if pops and g.always_before(nid, pops):
+            return True, f'popped in {short(f)}'
+        # whole-table form
+        for lp in ast.walk(f.node):
+            it = None
+            if isinstance(lp, ast.For):
+                it, tv = lp.iter, norm(lp.target)
+            elif isinstance(lp, ast.comprehension):
+                it, tv = lp.iter, norm(lp.target)
+            if it is None or tv != name or not (isinstance(
+                    it, ast.Attribute) and it.attr == 'conns'):
+                continue
+            blk = norm(it.value)
+            clears = [n.id for n in g.nodes for c in g.node_calls(n)
+                      if norm(c.func) == f'{blk}.conns.clear']
+            if clears and all(g.always_after(x, clears, exits={g.exit})
+                              for x in ([nid] if nid is not None else [])):
+                return True, f'{blk}.conns cleared after the hand-over loop'
+            return False, (f'every element of {blk}.conns is disconnected '
+                           f'but the table is not cleared')
+        if name in f.params():
+            key = (f.qualname, name)
+            if key in seen:
+                return True, 'recursive'
+            seen.add(key)
+            idx = f.params().index(name) - (1 if f.cls else 0)
+            sites = [s for s in _call_sites(pm, f.name)
+                     if pm.resolve(s[0], s[3]) is f]
+            if not sites:
+                return False, f'{short(f)} has no caller'
+            res = []
+            for cf, cg, cn, cc in sites:
+                if idx >= len(cc.args):
+                    return False, f'{norm(cc)[:40]} passes no {name}'
+                o, w = popped(cf, cg, cn, cc.args[idx], seen)
+                res.append((o, w))
+            return all(o for o, _ in res), ' | '.join(w for _, w in res)
+        return False, f'`{name}` is still registered in conns'
+
+    for f, g, nid, call in _call_sites(pm, dfn.name):
+        if pm.resolve(f, call) is not dfn or not call.args:
+            continue
+        n_sites += 1
+        ok, why = popped(f, g, nid, call.args[0], set())
+        ctx.ob('C15.R4', f'{short(f)}:disconnect-of-unregistered@L'
+               f'{call.lineno - f.node.lineno}', ok,
+               f'{short(f)} closes a connection that has not left conns '
+               f'({why}): it stays registered, so a later release / '
+               f'discard / prune closes it and gives back its capacity '
+               f'slot a second time (usage under-reported, then the '
+               f'maximum is exceeded)', f'{f.module.rel()}:{call.lineno}',
+               sample=why)
+    if n_sites < 1:
+        raise AnalysisError('C15.R4: no disconnect call site found')
 
 
 def _raises_on_true(g: CFG, tid: int) -> bool:
